@@ -422,7 +422,13 @@ func (l *Lexer) readSingleLineString(tok *token.Token) {
 			// a single-line string never contains a line terminator, not even after a backslash
 			// (there is no such escape); the printer indents what follows a line break, so a
 			// string that swallowed one would not print back to itself
-			tok.SetEnd(l.input.InputPosition-1, l.input.TextPosition)
+			end := l.input.InputPosition - 1
+			if escaped {
+				// the backslash has nothing left to escape: kept as the last character of the
+				// value it would escape the closing quote the printer adds
+				end--
+			}
+			tok.SetEnd(end, l.input.TextPosition)
 			return
 		case runes.BACKSLASH:
 			escaped = !escaped
